@@ -148,4 +148,34 @@ def restore (now : Int) (pre : Option (List (Nat × List (Bytes × Entry)))) (lo
     | none => .panic
     | some s1 => replay now (parseLogItems (log.length + 1) log).1 s1
 
+/-! ### snapshots (internal/snapshot/snapshot.go:308 Restore) -/
+
+/-- what the data directory holds for the snapshot engine: the manifest (does it decode, which
+    snapshot does it name) and, per snapshot directory, the decoded state file -/
+structure SnapDir where
+  name : Nat                                            -- directory name = unix ms of the snapshot
+  state : Option (Option (List (Nat × List (Bytes × Entry)) × Int))   -- none = no state.bin; some none = undecodable
+deriving Repr
+
+structure SnapImage where
+  manifest : Option (Option Int)        -- none = no manifest file; some none = undecodable; some (some ms)
+  dirs : List SnapDir
+deriving Repr
+
+/-- the restored keyspace and the LASTSAVE value after `snapshot.Engine.Restore` on a fresh server -/
+def restoreSnap (now : Int) (im : SnapImage) : Restored × Int :=
+  let empty : State := { dbs := [], mem := 0 }
+  match im.manifest with
+  | none => (.ok empty, 0)                              -- "no snapshot manifest, skipping snapshot restore"
+  | some none => (.ok empty, 0)                         -- json error
+  | some (some ms) =>
+    if ms == 0 then (.ok empty, 0) else
+    match (im.dirs.find? fun d => (d.name : Int) == ms).bind (·.state) with
+    | none => (.ok empty, 0)                            -- state.bin not found
+    | some none => (.ok empty, 0)                       -- state.bin does not decode
+    | some (some (ds, ls)) =>
+      match restoreDataset now empty ds with
+      | none => (.panic, ls)
+      | some s => (.ok s, ls)
+
 end Sugar.Persist
